@@ -9,7 +9,9 @@ namespace I3.Props.C08
 open I3.SourcePin
 
 def modelled : List String := [
+  "keccak256.<decls>@keccac256.go",
   "keccak256.Hash",
+  "mimc7.<decls>@mimc7.go",
   "mimc7.Hash",
   "mimc7.HashBytes",
   "mimc7.HashGeneric",
@@ -20,7 +22,8 @@ def modelled : List String := [
   "utils.CheckBigIntArrayInField",
   "utils.CheckBigIntInField",
   "utils.SetBigIntFromLEBytes",
-  "utils.SwapEndianness"
+  "utils.SwapEndianness",
+  "utils.<decls>@utils.go"
 ]
 
 theorem source_pinned : modelled.all (same I3.Gen.fingerprints) = true := by decide +kernel
@@ -28,6 +31,6 @@ theorem source_pinned : modelled.all (same I3.Gen.fingerprints) = true := by dec
 theorem function_set_pinned : (["keccak256.", "mimc7.", "utils."] : List String).all (sameKeys I3.Gen.fingerprints) = true := by
   decide +kernel
 
-theorem modelled_nonempty : 12 = modelled.length := by decide
+theorem modelled_nonempty : 15 = modelled.length := by decide
 
 end I3.Props.C08
